@@ -17,13 +17,17 @@
 // Batch.Read / ReadMessage, Conn.Read / ReadMessage with short buffers; ops
 // fetchread, connread, connreadmsg carry a 4th field, the read actions); part G
 // (readcut: the short-buffer reads of part F on a response cut before, inside
-// and after the value).  The OCaml driver
+// and after the value); part H (comp: Close inside a compressed batch followed
+// by more batches); part I (msgcut: ReadMessage over every cut); part J (split:
+// frame 1 delivered in two pieces, cut column "s<k>", or "es<k>" with the later
+// frames already on the wire).  The OCaml driver
 // evaluates the extracted Coq model (Model/ConnOps.v conn_run) on the part
 // before the first '|'.
 package main
 
 import (
 	"bufio"
+	"bytes"
 	"encoding/binary"
 	"encoding/hex"
 	"errors"
@@ -41,6 +45,7 @@ import (
 	"time"
 
 	kafka "github.com/segmentio/kafka-go"
+	"github.com/segmentio/kafka-go/compress"
 	"kverif/kvfmt"
 )
 
@@ -149,6 +154,10 @@ type fakeConn struct {
 	cut     int // -1: no cut
 	offered int // scripted bytes the script has reached so far (delivered or cut away)
 
+	split     int  // > 0: no Read returns bytes from both sides of this position of frame 1
+	eager     bool // every scripted frame is queued behind frame 1 at once (pipelined answers)
+	delivered int  // scripted bytes handed to the client so far
+
 	peerClosed bool // a request arrived and the script had no frame left
 	closed     bool // the Conn called Close
 	hang       bool
@@ -179,6 +188,14 @@ func (f *fakeConn) pump() {
 		switch {
 		case h.key == 18 && f.priming:
 			f.resp = append(f.resp, frame(h.corr, f.table)...)
+		case f.eager && f.next < len(f.frames):
+			if f.next == 0 {
+				for _, fr := range f.frames {
+					f.resp = append(f.resp, fr...)
+					f.offered += len(fr)
+				}
+			}
+			f.next++
 		case f.next < len(f.frames):
 			fr := f.frames[f.next]
 			f.next++
@@ -205,8 +222,14 @@ func (f *fakeConn) Read(p []byte) (int, error) {
 	}
 	f.pump()
 	if len(f.resp) > 0 {
+		if !f.priming && f.split > 0 && f.delivered < f.split && len(p) > f.split-f.delivered {
+			p = p[:f.split-f.delivered]
+		}
 		n := copy(p, f.resp)
 		f.resp = f.resp[n:]
+		if !f.priming {
+			f.delivered += n
+		}
 		return n, nil
 	}
 	if !f.priming && (f.peerClosed || (f.cut >= 0 && f.offered >= f.cut)) {
@@ -420,7 +443,7 @@ func runCase(tc *tcase) []string {
 	done := make(chan struct{})
 	go func() {
 		defer close(done)
-		f := &fakeConn{priming: !tc.noprime, table: pinTable(ops), frames: frames, cut: cut}
+		f := &fakeConn{priming: !tc.noprime, table: pinTable(ops), frames: frames, cut: cut, split: tc.split, eager: tc.eager}
 		conn := kafka.NewConnWith(f, kafka.ConnConfig{Topic: topic, Partition: 0, ClientID: "c"})
 		if !tc.noprime {
 			perr := func() (err error) {
@@ -476,6 +499,8 @@ type tcase struct {
 	cut     int
 	tags    string
 	noprime bool // "nrun": no priming, the script also answers the ApiVersions requests
+	split   int  // cut column "s<k>" / "es<k>": no cut, frame 1 is delivered in two pieces [..k) [k..)
+	eager   bool // "es<k>": and every scripted frame is on the wire right behind frame 1
 }
 
 func (c *tcase) head() string {
@@ -505,6 +530,12 @@ func (c *tcase) head() string {
 	cut := "-"
 	if c.cut >= 0 {
 		cut = kvfmt.U(uint64(c.cut))
+	}
+	if c.split > 0 {
+		cut = "s" + kvfmt.U(uint64(c.split))
+		if c.eager {
+			cut = "e" + cut
+		}
 	}
 	kw := "run"
 	if c.noprime {
@@ -583,7 +614,16 @@ func parseCase(head string) (*tcase, error) {
 			c.frames = append(c.frames, b)
 		}
 	}
-	if fs[4] != "-" {
+	switch {
+	case fs[4] == "-":
+	case strings.HasPrefix(fs[4], "s") || strings.HasPrefix(fs[4], "es"):
+		c.eager = fs[4][0] == 'e'
+		k, err := strconv.ParseUint(strings.TrimPrefix(strings.TrimPrefix(fs[4], "e"), "s"), 16, 31)
+		if err != nil || k == 0 {
+			return nil, fmt.Errorf("bad split %q", fs[4])
+		}
+		c.split = int(k)
+	default:
 		k, err := strconv.ParseUint(fs[4], 16, 31)
 		if err != nil {
 			return nil, err
@@ -1386,8 +1426,270 @@ func genAll(seed int64, tier string) {
 	nE := genNego(seed + 11111)
 	nF := genReads(seed + 22222)
 	nG := genReadCut(seed + 33333)
-	fmt.Fprintf(os.Stderr, "c11: part A %d cases, part B %d cases, part C %d cases, part D %d cases, part E %d cases, part F %d cases, part G %d cases\n",
-		counts["A"], counts["B"], nC, nD, nE, nF, nG)
+	nH := genComp(seed + 44444)
+	nI := genMsgCut(seed + 55555)
+	nJ := genSplit(seed + 66666)
+	fmt.Fprintf(os.Stderr, "c11: part A %d cases, part B %d cases, part C %d cases, part D %d cases, part E %d cases, part F %d cases, part G %d cases, part H %d cases, part I %d cases, part J %d cases\n",
+		counts["A"], counts["B"], nC, nD, nE, nF, nG, nH, nI, nJ)
+}
+
+// ---------------------------------------------------------------------------
+// PART H: message sets of several batches, one of them compressed; the batch is
+// closed while the reader is inside (or right before) the compressed unit, so
+// Close has to skip the rest of the response on the Conn, not in the
+// decompressed buffer.
+// ---------------------------------------------------------------------------
+
+var codecName = []string{"none", "gzip", "snappy", "lz4", "zstd"}
+
+func compressBytes(codec int, b []byte) []byte {
+	var buf bytes.Buffer
+	w := compress.Compression(codec).Codec().NewWriter(&buf)
+	if _, err := w.Write(b); err != nil {
+		panic(err)
+	}
+	if err := w.Close(); err != nil {
+		panic(err)
+	}
+	return buf.Bytes()
+}
+
+// one unit of a message set: a magic-2 record batch, or magic-0/1 messages; with
+// codec != 0 the records section is compressed (magic 2) or the messages travel
+// in a wrapper message whose value is the compressed inner message set
+func buildUnit(r *rand.Rand, kind int, codec int, msgs []drainMsg) []byte {
+	if codec == 0 {
+		return buildMsgSet(r, kind, msgs)
+	}
+	var e enc
+	if kind == msV2 {
+		plain := buildMsgSet(r, msV2, msgs)
+		recs := compressBytes(codec, plain[61:])
+		e.b = append(e.b, plain[:61]...)
+		binary.BigEndian.PutUint32(e.b[8:], uint32(49+len(recs))) // batch length
+		binary.BigEndian.PutUint16(e.b[21:], uint16(codec))       // attributes: the codec
+		return append(e.b, recs...)
+	}
+	inner := make([]drainMsg, len(msgs))
+	copy(inner, msgs)
+	if kind == msV1 { // relative offsets 0..n-1 inside the wrapper
+		for i := range inner {
+			inner[i].off = int64(i)
+		}
+	}
+	val := compressBytes(codec, buildMsgSet(r, kind, inner))
+	sz := 4 + 1 + 1 + 4 + 4 + len(val)
+	if kind == msV1 {
+		sz += 8
+	}
+	e.i64(msgs[len(msgs)-1].off) // the wrapper carries the offset of the last inner message
+	e.i32(int32(sz))
+	e.i32(int32(r.Uint32())) // crc
+	if kind == msV1 {
+		e.i8(1)
+		e.i8(int8(codec))
+		e.i64(r.Int63n(1 << 41))
+	} else {
+		e.i8(0)
+		e.i8(int8(codec))
+	}
+	e.byt(nil) // null key
+	e.byt(val)
+	return e.b
+}
+
+func wantTag(msgs []drainMsg) string {
+	wl := make([]string, len(msgs))
+	for i, m := range msgs {
+		wl[i] = kvfmt.I(m.off) + "," + kvfmt.Bytes(m.key) + "," + kvfmt.Bytes(m.val)
+	}
+	return ",want=[" + strings.Join(wl, ";") + "]"
+}
+
+func rndOff(r *rand.Rand) int64 {
+	if r.Intn(3) == 0 {
+		return r.Int63n(1 << 40)
+	}
+	return int64(r.Intn(1000))
+}
+
+func genComp(seed int64) int {
+	r := rand.New(rand.NewSource(seed))
+	count := 0
+	hb := opSpec{"heartbeat", 0, 0}
+	lo := opSpec{"listoffsets", 1, 0}
+	mk := func(off int64, lo, hi int) drainMsg {
+		m := drainMsg{off: off, val: make([]byte, lo+r.Intn(hi-lo+1))}
+		r.Read(m.val)
+		if r.Intn(3) != 0 {
+			m.key = rsmall(r, 3)
+		}
+		return m
+	}
+	for _, ver := range []int{2, 5, 10} {
+		for _, kind := range []int{msV0, msV1, msV2} {
+			for codec := 1; codec <= 4; codec++ {
+				for _, layout := range []string{"CU", "UCU"} {
+					off := rndOff(r)
+					var all []drainMsg
+					var ms []byte
+					next := off
+					beforeEndOfC := 0
+					for _, u := range layout {
+						var msgs []drainMsg
+						if u == 'C' {
+							for i := 0; i < 3; i++ {
+								msgs = append(msgs, mk(next, 30, 40))
+								next++
+							}
+							ms = append(ms, buildUnit(r, kind, codec, msgs)...)
+							all = append(all, msgs...)
+							beforeEndOfC = len(all)
+						} else {
+							msgs = append(msgs, mk(next, 1, 3))
+							next++
+							ms = append(ms, buildUnit(r, kind, 0, msgs)...)
+							all = append(all, msgs...)
+						}
+					}
+					fr := frame(2, fetchBodyF(r, ver, off+100, ms))
+					lob := genBody(r, "listoffsets", 1, site{}, fetchOpt{})
+					frames := [][]byte{fr, frame(3, []byte{0, 0}), frame(4, lob.body)}
+					put := func(name string, acts []int64, k string) {
+						a := acts
+						if a == nil {
+							a = []int64{}
+						}
+						emit(&tcase{
+							topic:  ownTopic,
+							cut:    -1,
+							ops:    []opSpec{{name, ver, off}, hb, lo},
+							acts:   map[int][]int64{0: a},
+							frames: frames,
+							tags: fmt.Sprintf("comp,op=%sv%d,msgset=%s,codec=%s,layout=%s,k=%s,next=heartbeatv0,next2=listoffsetsv1",
+								name, ver, msTag(kind), codecName[codec], layout, k) + wantTag(all),
+						})
+						count++
+					}
+					for k := 0; k < beforeEndOfC; k++ {
+						var acts []int64
+						for i := 0; i < k; i++ {
+							acts = append(acts, -1)
+						}
+						put("fetchread", acts, strconv.Itoa(k))
+					}
+					put("connreadmsg", []int64{4096}, "1")
+					put("connread", []int64{64}, "1")
+				}
+			}
+		}
+	}
+	return count
+}
+
+// ---------------------------------------------------------------------------
+// PART I: Conn.ReadMessage / two Batch.ReadMessage over every cut position.
+// ---------------------------------------------------------------------------
+
+func genMsgCut(seed int64) int {
+	r := rand.New(rand.NewSource(seed))
+	count := 0
+	hb := opSpec{"heartbeat", 0, 0}
+	for _, ver := range []int{2, 5, 10} {
+		for _, kind := range []int{msV0, msV1, msV2} {
+			off := rndOff(r)
+			msgs := make([]drainMsg, 2)
+			for i := range msgs {
+				m := drainMsg{off: off + int64(i), val: make([]byte, 3+r.Intn(6))}
+				r.Read(m.val)
+				if r.Intn(3) != 0 {
+					m.key = rsmall(r, 3)
+				}
+				msgs[i] = m
+			}
+			ms, ends := buildMsgSetEnds(r, kind, msgs)
+			body := fetchBodyF(r, ver, off+100, ms)
+			fr := frame(2, body)
+			msStart := len(fr) - len(ms)
+			pe := make([]string, len(ends))
+			for i, p := range ends {
+				pe[i] = kvfmt.U(uint64(msStart + p))
+			}
+			for _, o := range []struct {
+				name string
+				acts []int64
+			}{{"connreadmsg", []int64{4096}}, {"fetchread", []int64{-1, -1}}} {
+				tags := fmt.Sprintf("msgcut,op=%sv%d,msgset=%s,recends=%s,next=heartbeatv0", o.name, ver, msTag(kind), strings.Join(pe, "/")) + wantTag(msgs)
+				for k := -1; k < len(fr); k++ {
+					emit(&tcase{
+						topic:  ownTopic,
+						cut:    k,
+						ops:    []opSpec{{o.name, ver, off}, hb},
+						acts:   map[int][]int64{0: o.acts},
+						frames: [][]byte{fr, frame(3, []byte{0, 0})},
+						tags:   tags,
+					})
+					count++
+				}
+			}
+		}
+	}
+	return count
+}
+
+// ---------------------------------------------------------------------------
+// PART J: the response arrives in two network reads split at every position
+// (a read that straddles the refill of the buffer must keep the remaining-size
+// counter right), with and without the following responses already on the wire.
+// ---------------------------------------------------------------------------
+
+func genSplit(seed int64) int {
+	r := rand.New(rand.NewSource(seed))
+	count := 0
+	hb := opSpec{"heartbeat", 0, 0}
+	lo := opSpec{"listoffsets", 1, 0}
+	sweep := func(ver, kind int, lens []int, modes []string) {
+		off := rndOff(r)
+		msgs := make([]drainMsg, len(lens))
+		for i := range msgs {
+			msgs[i] = drainMsg{off: off + int64(i), val: make([]byte, lens[i])} // null keys
+			r.Read(msgs[i].val)
+		}
+		fr := frame(2, fetchBodyF(r, ver, off+100, buildMsgSet(r, kind, msgs)))
+		lob := genBody(r, "listoffsets", 1, site{}, fetchOpt{})
+		frames := [][]byte{fr, frame(3, []byte{0, 0}), frame(4, lob.body)}
+		for _, o := range []struct {
+			name string
+			acts []int64
+		}{{"fetchread", []int64{-1, -1}}, {"connreadmsg", []int64{4096}}} {
+			put := func(mode string, k int) {
+				emit(&tcase{
+					topic:  ownTopic,
+					cut:    -1,
+					split:  k,
+					eager:  mode == "e",
+					ops:    []opSpec{{o.name, ver, off}, hb, lo},
+					acts:   map[int][]int64{0: o.acts},
+					frames: frames,
+					tags:   fmt.Sprintf("split,op=%sv%d,msgset=%s,mode=%s,next=heartbeatv0,next2=listoffsetsv1", o.name, ver, msTag(kind), mode) + wantTag(msgs),
+				})
+				count++
+			}
+			put("none", 0) // the reference: one piece
+			for _, mode := range modes {
+				for k := 1; k < len(fr); k++ {
+					put(mode, k)
+				}
+			}
+		}
+	}
+	for _, ver := range []int{2, 10} {
+		sweep(ver, msV2, []int{70, 75}, []string{"s", "e"})
+	}
+	for _, ver := range []int{2, 10} {
+		sweep(ver, msV1, []int{20, 20}, []string{"s"})
+	}
+	return count
 }
 
 // ---------------------------------------------------------------------------
@@ -1680,6 +1982,12 @@ func msTag(kind int) string {
 }
 
 func buildMsgSet(r *rand.Rand, kind int, msgs []drainMsg) []byte {
+	ms, _ := buildMsgSetEnds(r, kind, msgs)
+	return ms
+}
+
+// ends[i]: the number of bytes of the message set after which message i is wholly there
+func buildMsgSetEnds(r *rand.Rand, kind int, msgs []drainMsg) (ms []byte, ends []int) {
 	var e enc
 	switch kind {
 	case msV2:
@@ -1700,6 +2008,7 @@ func buildMsgSet(r *rand.Rand, kind int, msgs []drainMsg) []byte {
 			b.varint(0) // headers
 			recs.varint(int64(len(b.b)))
 			recs.b = append(recs.b, b.b...)
+			ends = append(ends, 61+len(recs.b))
 		}
 		ts := r.Int63n(1 << 41)
 		e.i64(msgs[0].off)             // base offset
@@ -1735,9 +2044,10 @@ func buildMsgSet(r *rand.Rand, kind int, msgs []drainMsg) []byte {
 			}
 			e.byt(m.key) // nil = null
 			e.byt(m.val)
+			ends = append(ends, len(e.b))
 		}
 	}
-	return e.b
+	return e.b, ends
 }
 
 func fetchBodyF(r *rand.Rand, ver int, hwm int64, ms []byte) []byte {
